@@ -348,3 +348,16 @@ prop("C19", lean=["FmpRpc.Tie.C19", "FmpRpc.Props.C19"],
           "user holds (passed in or read out) after every step; tags of every context and every user map compared at the end "
           "|| " + RULE_WIRE + " || " + RULE_SESSION,
      assumptions=["context.WithValue chains are immutable (contract of the context package)"])
+
+RULE_CONN = ("a Connection over a scripted ConnectionTransport / ConnectionHandler (dial, OnConnect and command outcomes, retry "
+             "verdicts, backoff stops from one PRNG) runs under the controlled scheduler with virtual time: 0-3 commands (with "
+             "fire-now marker, cancellation, timeout), forced reconnects, disconnections, fast-forward and Shutdown race; the "
+             "history (announcements, dials with instants, registrations, OnConnect, finalize, releases, executions) is judged by "
+             "the Lean monitors; distinct = distinct histories on which every monitor of this property holds")
+CONN = dict(mode="conn", n=(1500, 20000), judge="mon")
+prop("C14", lean=["FmpRpc.Tie.C14", "FmpRpc.Props.C14"], runs=[dict(CONN)], rule=RULE_CONN,
+     assumptions=["keybase/backoff.RetryNotifyWithContext is modelled (its loop: operation, NextBackOff, notify, sleep-or-ctx)"])
+prop("C15", lean=["FmpRpc.Tie.C15", "FmpRpc.Props.C15"], runs=[dict(CONN)], rule=RULE_CONN,
+     assumptions=["keybase/backoff.RetryNotify is modelled"])
+PROPS["C16"]["runs"].append(dict(CONN))
+PROPS["C16"]["rule"] += " || " + RULE_CONN
